@@ -228,7 +228,7 @@ Proof.
       destruct (process_response_cbs s lf r _) as [s1 o1]. cbn [fst snd] in *. subst o1.
       unfold handled. cbn [fst snd].
       split; [exact Hv|]. rewrite inv_invokes, app_nil_r. reflexivity.
-    + destruct (d_ref d); apply Hnone; destruct (negb _); cbn [fst snd]; try apply vsame_refl; reflexivity.
+    + destruct (d_ref d); apply Hnone; destruct (negb _ || _); cbn [fst snd]; try apply vsame_refl; reflexivity.
     + destruct (d_ref d); apply Hnone; unfold process_write; destruct (negb _); cbn [fst snd];
         try apply vsame_refl; try reflexivity;
         try (apply views_upd_neutral; intros x; split; reflexivity);
@@ -595,7 +595,7 @@ Proof.
   - destruct (negb _); [reflexivity|]. destruct (d_ref d) as [r|]; [|reflexivity].
     pose proof (rets_response_cbs s lf r p en rf (pl_val pl)) as H.
     destruct (process_response_cbs s lf r _) as [s1 o1]. exact H.
-  - destruct (negb _); reflexivity.
+  - destruct (negb _ || _); reflexivity.
   - unfold process_write. destruct (negb _); [reflexivity|]. destruct (d_ack d); reflexivity.
   - reflexivity.
 Qed.
@@ -796,7 +796,7 @@ Proof.
   - destruct (negb _); [reflexivity|]. destruct (d_ref d) as [r|]; [|reflexivity].
     pose proof (frame_response_cbs s lf r (mk_invoke lf r p en rf (pl_val pl))) as H.
     destruct (process_response_cbs s lf r _) as [s1 o1]. exact H.
-  - destruct (negb _); reflexivity.
+  - destruct (negb _ || _); reflexivity.
   - unfold process_write. destruct (negb _); reflexivity.
   - reflexivity.
 Qed.
